@@ -120,7 +120,9 @@ func (b *Bytes) Store(addr model.Addr, ex expr.Expr, w expr.Width) {
 		panic(fmt.Sprintf("memory Bytes allows only expr.Const writes: %T", ex))
 	}
 
-	bs := c.WithWidth(w).Bytes()
+	// Bytes are copied as they become storage of a block which is modified
+	// by later stores, but constants are immutable.
+	bs := append([]byte(nil), c.WithWidth(w).Bytes()...)
 	for len(bs) > 0 {
 		n := b.store(addr, bs)
 		bs = bs[n:]
